@@ -1084,14 +1084,15 @@ Module Witness.
        rn_data := ["11111111-1111-1111-1111-111111111111"]; rn_sig := sg |}.
 
   (* an ill-formed state: the latest order of model A names model B (and was placed by
-     B's owner, so that the model keeper lets it update B) *)
+     B's owner; the signer holds a read-write grant on B, so that the model keeper lets the
+     renewal order update B) *)
   Definition dids2 : DidState :=
     did_empty <| d_pay := list_to_map [("did:key:ownerK", "ownerAddr"); ("did:key:otherK", "otherAddr")] |>.
   Definition idB : string := "bbbbbbbb-bbbb-bbbb-bbbb-bbbbbbbbbbbb".
   Definition metaA : Meta :=
     mkMeta "did:key:ownerK" "a" "g" 0 [] "cid" ["c1"] "" 0 "c1" "" 1000 0 [] [] 4 [0].
   Definition metaB : Meta :=
-    mkMeta "did:key:otherK" "b" "g" 7 [] "cid" ["c1"] "" 0 "c1" "" 10 1 [] [] 4 [7].
+    mkMeta "did:key:otherK" "b" "g" 7 [] "cid" ["c1"] "" 0 "c1" "" 10 1 [] ["did:key:ownerK"] 4 [7].
   Definition order2 : Order :=
     mkOrder "gw" "did:key:otherK" "gw" "cid" 1000 3 1 [] 1 1 1 0 10 idB "c1" PRICE "".
   Definition s2 : State :=
@@ -1104,38 +1105,25 @@ Module Witness.
        rn_data := ["A"]; rn_sig := sg |}.
 End Witness.
 
-(* FINDING. The payer of a renewal is the payment address of the OWNER FIELD OF THE MODEL'S
-   LATEST ORDER, not of the signer of the renewal: after an update by a read-write grantee the
-   model owner's renewal is paid from the grantee's account. *)
-Theorem renew_payer_refuted : exists cx s m s' d a,
-  step cx s (ORenew m) = (s', OutTx COk d) /\ balance s' a < balance s a /\ pay_addr s (rn_owner m) <> Some a.
-Proof.
-  exists Witness.cx, Witness.s1, Witness.rn1, (fst (step Witness.cx Witness.s1 (ORenew Witness.rn1))), "", "granteeAddr".
-  split; [vm_compute; reflexivity|]. split; [vm_compute; reflexivity|]. vm_compute. discriminate.
-Qed.
-Print Assumptions renew_payer_refuted.
-
-(* the same witness: the request is signed by the owner, verifies, and the signer has a
-   payment address with funds of its own *)
-Theorem renew_payer_refuted_detail :
+(* Repaired defect D20/D24 (fix commit in /repo: the renewal order belongs to the model owner who
+   signed it). On the state that used to refute the payer clause -- the latest version written
+   by a read-write grantee -- the owner's renewal is now paid from the owner's own account and
+   is recorded in the model. *)
+Theorem renew_payer_witness :
   let s := Witness.s1 in let m := Witness.rn1 in let s' := fst (step Witness.cx s (ORenew m)) in
   sig_sane (rn_owner m) (rn_sig m) /\ verify_sig s (rn_owner m) (rn_sig m) = Some (rn_owner m) /\
-  meta_order_link s /\
   snd (step Witness.cx s (ORenew m)) = OutTx COk "" /\
   pay_addr s (rn_owner m) = Some "ownerAddr" /\
-  balance s "ownerAddr" = 100 /\ balance s' "ownerAddr" = 100 /\
-  balance s "granteeAddr" = 100 /\ balance s' "granteeAddr" = 99.
+  balance s "ownerAddr" = 100 /\ balance s' "ownerAddr" = 99 /\
+  balance s "granteeAddr" = 100 /\ balance s' "granteeAddr" = 100 /\
+  (exists em', metas s' !! "11111111-1111-1111-1111-111111111111" = Some em' /\ m_orders em' = [0; 1] /\ m_order em' = 1).
 Proof.
-  cbv zeta. split; [|split; [|split; [|repeat split; vm_compute; reflexivity]]].
+  cbv zeta. split; [|split; [|repeat split; try (vm_compute; reflexivity)]].
   - intros mm id H. inversion H. reflexivity.
   - vm_compute. reflexivity.
-  - intros d meta o Hm Ho.
-    destruct (decide (d = "11111111-1111-1111-1111-111111111111")) as [->|Hne].
-    + vm_compute in Hm. inversion Hm; subst meta. vm_compute in Ho. inversion Ho; subst o. reflexivity.
-    + unfold Witness.s1 in Hm. simpl in Hm. rewrite lookup_insert_ne in Hm by congruence.
-      rewrite lookup_empty in Hm. discriminate.
+  - eexists. split; [vm_compute; reflexivity|]. split; reflexivity.
 Qed.
-Print Assumptions renew_payer_refuted_detail.
+Print Assumptions renew_payer_witness.
 
 (* The full statement of [renew_authorized] (without [meta_order_link]) is false of the model:
    on a state where the latest order of a listed model names ANOTHER model, the renewal order
